@@ -1,10 +1,34 @@
 import Driver.Parse
 import AvroModel.Impl.Rabin
 import AvroModel.Spec.Crc64
+import AvroModel.Spec.Denotes
 open Avro Avro.Impl Driver
 
+def Driver.ExtTable.toDenExt (t : ExtTable) : Spec.DenExt :=
+  let e := t.toExt
+  { asF32 := e.asF32, decFromF64 := e.decFromF64, decParse := e.decParse, decRescale := e.decRescale }
+
+/-- Schemas on which the reading of a presentation is unambiguous: distinct field names per
+    record, distinct symbols per enum (the Avro specification requires both). -/
+def schemaNamesDistinct (S : Schema) : Bool :=
+  S.all fun n => match n with
+    | .record _ fs => (fs.map (·.1)).Nodup
+    | .enum _ syms => syms.Nodup
+    | _ => true
+
+/-- The C02 oracle on an `Ok(bytes)` outcome: the bytes decode, completely, under the
+    specification's decoder, to a value the presentation denotes. -/
+def judgeSer (ext : ExtTable) (S : Schema) (root : Node) (sv : SV) (bs : Bytes) : String :=
+  if !schemaNamesDistinct S then "n/a duplicate field names or symbols" else
+  match Spec.decode S (4 * bs.length + 4 * S.size + 64) root bs with
+  | none => "VIOLATION Ok(bytes) but the bytes do not decode under the specification"
+  | some (_, _ :: _) => "VIOLATION Ok(bytes) but decoding leaves trailing bytes"
+  | some (v, []) =>
+    if Spec.denotes ext.toDenExt S root sv v then "ok"
+    else "VIOLATION Ok(bytes) decodes to a value the presentation does not denote"
+
 /-- `ser <allowSlow> <budget|-> <schema> <sv> [ext entries]` → `ok <hex>` / `err` / `panic`. -/
-def runSer : P String := do
+def runSer (mustSucceed : Bool) : P String := do
   let allowSlow := (← pNat) ≠ 0
   let budget ← pOptNat
   let sm ← pSchemaMut
@@ -16,9 +40,28 @@ def runSer : P String := do
   | some root =>
     let (r, st) := ser ext.toExt allowSlow S root sv { budget := budget }
     match r with
-    | .ok _ => pure s!"ok {bytesToHex st.out}"
-    | .error .panic => pure "panic"
-    | .error _ => pure "err"
+    | .ok _ => pure s!"ok {bytesToHex st.out} # {judgeSer ext S root sv st.out}"
+    | .error .panic => pure "panic # VIOLATION panic"
+    | .error _ =>
+      if mustSucceed then pure "err # VIOLATION a conforming value in a branch-determining presentation was rejected"
+      else pure "err # ok"
+
+/-- `judge-ser <hex|err> <case…>`: the oracle applied to the *implementation's* outcome. -/
+def runJudgeSer : P String := do
+  let outcome ← tok
+  let _ ← tok  -- the stream tag of the embedded case
+  let _ ← pNat
+  let _ ← pOptNat
+  let sm ← pSchemaMut
+  let sv ← pSV
+  let ext ← pExtEntries {}
+  let S := freezeNodes sm
+  match S[0]?, outcome.toList with
+  | some root, 'x' :: h =>
+    match hexToBytes h with
+    | some bs => pure s!"judged # {judgeSer ext S root sv bs}"
+    | none => pure "bad-case hex"
+  | _, _ => pure "judged # ok"
 
 /-- `crc <bytes>` → fingerprint by the model; oracle: the specification's bit-serial CRC. -/
 def runCrc : P String := do
@@ -33,7 +76,9 @@ def dispatch (line : String) : String :=
   | [] => ""
   | cmd :: rest =>
     let p : Option (P String) := match cmd with
-      | "ser" => some runSer
+      | "ser" => some (runSer false)
+      | "serv" => some (runSer true)
+      | "judge-ser" => some runJudgeSer
       | "crc" => some runCrc
       | _ => none
     match p with
